@@ -145,7 +145,8 @@ async def prog_fault(flavor, p):
     inject = ("fault", p["op"], p["fault"]) if p.get("fault") else None
     res = await run_injected(flavor, p["ctype"], p["shape"], "alone", inject, sc_kw={"timeouts": {"connect": 11.0, "read": 13.0, "write": 17.0, "pool": 19.0},
                                                                                      "retries": p.get("retries", 0),
-                                                                                     "trace_raise": p.get("trace_raise")})
+                                                                                     "trace_raise": p.get("trace_raise"),
+                                                                                     "trace_form": p.get("trace_form", "function")})
     pool = res["sc"].pool
     state = [norm_text(repr(pool)), [norm_text(c.info()) for c in pool.connections]]
     facts = await post_checks(res, flavor)
@@ -555,6 +556,10 @@ def plan(tier, seed):
             progs.append(["fault", {"ctype": ctype, "shape": r.choice(["get", "post3", "stream-partial"]), "op": r.randrange(0, 14),
                                     "fault": r.choice(["ConnectError", "ReadError", "ReadTimeout", "EOF", "WriteError", "PartialWrite"]),
                                     "trace_raise": [".failed", 1]}])
+    for ctype in TYPES:
+        # the trace callback in other shapes than a plain function: a callable object, a functools.partial
+        for form in ("object", "partial"):
+            progs.append(["fault", {"ctype": ctype, "shape": r.choice(["get", "post3"]), "trace_form": form}])
     for i in range(60 if q else 500):
         cfg, steps = c09.gen_history(r)
         progs.append(["history", {"cfg": cfg, "steps": steps}])
